@@ -72,6 +72,7 @@ structure Method (N : Type) where
 structure ClassEntry (N : Type) where
   name : N
   external : Bool
+  extPositional : List N       -- (external classes) names of the leading positional parameters
   mro : List N
   init : Option (Init N)
   methods : List (Method N)
@@ -138,6 +139,13 @@ inductive Prim (N : Type) where
   | havoc
   deriving DecidableEq, Repr
 
+/-- positional arguments of a constructor outside the package: stored under the known names -/
+def bindExternal (names : List N) (pos : List (Expr N)) (cond : Bool) : List (Prim N) :=
+  match names, pos with
+  | _, [] => []
+  | [], _ :: _ => [.havoc]
+  | n :: ns, e :: es => Prim.write n e cond :: bindExternal ns es cond
+
 /-- The constructor reached through `chain`, called with `pos`/`kw`, as primitive writes. -/
 def flatten (tbl : Table N) : Nat → List N → List (Expr N) → List (N × Expr N) → Bool → List (Prim N)
   | 0, _, _, _, _ => [.havoc]
@@ -147,7 +155,7 @@ def flatten (tbl : Table N) : Nat → List N → List (Expr N) → List (N × Ex
     | some (c, rest) =>
       if c.external then
         -- a class outside the package: assumed to follow the sklearn convention for keywords
-        (if pos.isEmpty then [] else [.havoc]) ++ kw.map (fun (k, e) => Prim.write k e cond)
+        bindExternal c.extPositional pos cond ++ kw.map (fun (k, e) => Prim.write k e cond)
       else
         match c.init with
         | none => []
@@ -246,6 +254,12 @@ def absStep (a : N) : AbsVal N → Prim N → AbsVal N
 
 def absFrom (a : N) (st : AbsVal N) (ps : List (Prim N)) : AbsVal N := ps.foldl (absStep a) st
 def absOf (a : N) (ps : List (Prim N)) : AbsVal N := absFrom a .absent ps
+
+/-- what an abstract value says about a concrete store -/
+def AbsRel {V : Type} (I : Interp N V) (args : N → V) (a : N) : AbsVal N → List (N × V) → Prop
+  | .absent, s => assocGet a s = none
+  | .is e, s => assocGet a s = some (evalExpr I args e)
+  | .unknown, _ => True
 
 def mayRaise (ps : List (Prim N)) : Bool :=
   ps.any fun | .raise _ => true | _ => false
